@@ -204,7 +204,19 @@ func impRun(c impCfg) (*impObs, string) {
 	for p, n := range impPkg {
 		names[p] = n
 	}
-	fr := decorator.NewRestorerWithImports("main", simple.New(names)).FileRestorer()
+	rst := decorator.NewRestorerWithImports("main", simple.New(names))
+	if len(c.key())%4 == 1 {
+		// every fourth configuration: the references carry objects next to their paths (code decorated with
+		// ResolveLocalPath and moved here has them) and the restorer restores the object graph too
+		rst.Extras = true
+		dst.Inspect(f, func(n dst.Node) bool {
+			if id, ok := n.(*dst.Ident); ok && id.Path != "" && id.Obj == nil {
+				id.Obj = dst.NewObj(dst.Var, id.Name)
+			}
+			return true
+		})
+	}
+	fr := rst.FileRestorer()
 	for p, o := range c.Ov {
 		if o != "unset" {
 			if c.Lit == 4 && o == "z" {
